@@ -42,4 +42,35 @@ theorem div_gap (pa pb ka eb sh M Δ : Nat) (hpa : pa < 2 ^ 24) (hpb : pb < 2 ^ 
     · omega
     · rcases h with h | h <;> omega
 
+/-- the quotient of two finite non-zero binary32 values never rounds (in binary64) to a false binary32 tie -/
+theorem quot_no_false_tie (ma mb : Nat) (hfa : ma < F.infMag) (hfb : mb < F.infMag) (hb0 : 0 < sval F mb)
+    (hR : sval F ma * 2 ^ 149 < sval F F.infMag * sval F mb) : NoFalseTie (sval F ma * 2 ^ 149) (sval F mb) := by
+  obtain ⟨pa, ea, hva, hpa, _⟩ := sval_F_form ma hfa
+  obtain ⟨pb, eb, hvb, hpb, _⟩ := sval_F_form mb hfb
+  apply no_false_tie_of_gap _ _ hb0 hR
+  intro sh m Δ _ _ hΔ h
+  have e : sval F ma * 2 ^ 149 = pa * 2 ^ (ea + 149) := by rw [hva, Nat.mul_assoc, ← Nat.pow_add]
+  rw [e, hvb] at h; rw [hvb]
+  exact div_gap pa pb (ea + 149) eb sh (2 * m + 1) Δ hpa hpb (by omega) hΔ h
+
+/-- binary64 quotient of two widened finite binary32 values (divisor not zero), packed as binary32 -/
+theorem narrow_round_quot (ma mb : Nat) (hfa : ma < F.infMag) (hfb : mb < F.infMag) (hb0 : 0 < sval F mb) (neg : Bool) :
+    narrow (roundS D .RNE neg (sval F ma * 2 ^ 149 * 2 ^ 925) (sval F mb)) =
+      roundS F .RNE neg (sval F ma * 2 ^ 149) (sval F mb) := by
+  by_cases ha0 : sval F ma = 0
+  · rw [ha0]; unfold roundS; simp only [Nat.zero_mul, if_true]; exact narrow_zero _
+  have hla := sval_F_lt ma hfa
+  have hlb := sval_F_lt mb hfb
+  apply narrow_roundS neg _ _ hb0
+  · have h1 : 2 ^ 277 ≤ 1 * 2 ^ 149 * 2 ^ 925 := by
+      rw [Nat.one_mul, ← Nat.pow_add]; exact Nat.pow_le_pow_right (by decide) (by decide)
+    have h2 : 1 * 2 ^ 149 * 2 ^ 925 ≤ sval F ma * 2 ^ 149 * 2 ^ 925 :=
+      Nat.mul_le_mul_right _ (Nat.mul_le_mul_right _ (by omega))
+    omega
+  · calc sval F ma * 2 ^ 149 < 2 ^ 277 * 2 ^ 149 := Nat.mul_lt_mul_of_pos_right hla (Nat.two_pow_pos _)
+      _ = 2 ^ 426 := by rw [← Nat.pow_add]
+      _ ≤ 2 ^ 1000 := Nat.pow_le_pow_right (by decide) (by decide)
+      _ ≤ 2 ^ 1000 * sval F mb := Nat.le_mul_of_pos_right _ hb0
+  · exact quot_no_false_tie ma mb hfa hfb hb0
+
 end Claripy.FP.Fold
